@@ -56,8 +56,9 @@ def _np(x):
 class ModelRunner:
     """Executes operations for ONE model; used identically in the history process and in the fresh interpreter."""
 
-    def __init__(self, spec, shared_circ=None):
+    def __init__(self, spec, shared_circ=None, file_prefix=""):
         self.spec = spec
+        self.file_prefix = file_prefix
         self.rm = RefModel(spec)
         self.circ = None
         self.kept = []
@@ -111,8 +112,8 @@ class ModelRunner:
             kw = {}
             func, args, names, svm = c.get_run_func(op.get("fname", "pv_f"), step_size=DT, vectorize=vec,
                                                     in_place=bool(op.get("in_place")), clear=bool(op.get("clear")),
-                                                    verbose=False, float_precision="float64", backend=be,
-                                                    file_name=op.get("file", "pv_gen_a"))
+                                                    verbose=False, float_precision=op.get("precision", "float64"), backend=be,
+                                                    file_name=(self.file_prefix + op.get("file", "pv_gen_a")))
             comp = Compiled(func, args, names, svm, backend=be, inplace=True)
             y0 = comp.y0
             out = comp.call(0.0, y0)
@@ -131,7 +132,7 @@ class ModelRunner:
                         obs["args"].setdefault(n2, []).append(float(a[0]))
                 for v in obs["args"].values():
                     v.sort()
-            self.kept.append((comp, out.copy()))
+            self.kept.append((comp, out.copy(), op.get("precision", "float64")))
             return obs
         if k == "run":
             kw = {}
@@ -141,18 +142,36 @@ class ModelRunner:
                 kw["inputs"] = {ins[op["i"] % len(ins)]: np.array([0.3, -0.2, 0.5, 0.1])}
             df = c.run(simulation_time=4 * DT, step_size=DT, outputs=self._outputs(), solver="euler", vectorize=vec, **kw,
                        verbose=False, clear=bool(op.get("clear")), in_place=bool(op.get("in_place")),
-                       float_precision="float64", file_name=op.get("file", "pv_gen_a"),
+                       float_precision=op.get("precision", "float64"), file_name=(self.file_prefix + op.get("file", "pv_gen_a")),
                        backend=op.get("backend", "default") if op.get("backend") != "fortran" else "default")
             return {"rows": {p: [float(x) for x in np.asarray(df[f"v{i}"], dtype=float).ravel()]
                              for i, p in enumerate(self.rm.state_paths)}}
         if k == "jac":
             res = c.get_jacobian_func("pv_j", step_size=DT, vectorize=False, in_place=bool(op.get("in_place")),
                                       clear=bool(op.get("clear")), verbose=False, float_precision="float64",
-                                      backend="default", file_name=op.get("file", "pv_gen_a") + "_j")
+                                      backend="default", file_name=(self.file_prefix + op.get("file", "pv_gen_a")) + "_j")
             jf, jargs = res[0], res[1]
             y0 = np.asarray(jargs[1], dtype=float).ravel()
             J = np.asarray(jf(0, y0.copy(), *jargs[2:]), dtype=float)
             return {"jac_sorted": sorted(round(float(x), 12) for x in J.ravel()), "shape": list(J.shape)}
+        if k == "failed_compile":
+            # a translation that fails half way (an edge into a variable that does not exist) and is caught by the user:
+            # what it leaves behind must not reach the models handled afterwards
+            from pyrates import CircuitTemplate
+            rm = self.rm
+            if not rm.state_paths or any("/" in p for p, _ in self.spec["nodes"]):
+                return {}
+            bad = build_circuit(self.spec, name="net_bad")
+            src = rm.state_paths[op["i"] % len(rm.state_paths)]
+            node = self.spec["nodes"][0][0]
+            o = self.spec["ntypes"][self.spec["nodes"][0][1]]["ops"][0]
+            try:
+                bad = bad.update_template(edges=[(src, f"{node}/{o}/no_such_variable", None, {"weight": 1.0})])
+                bad.get_run_func("pv_bad", step_size=DT, vectorize=vec, in_place=False, clear=False, verbose=False,
+                                 float_precision="float64", backend="default", file_name=self.file_prefix + "pv_gen_bad")
+            except Exception:
+                pass
+            return {}
         if k == "clear":
             if c._ir is not None:
                 c.clear()
@@ -165,10 +184,11 @@ class ModelRunner:
 
     def recheck_kept(self):
         bad = []
-        for n, (comp, first) in enumerate(self.kept):
+        for n, (comp, first, prec) in enumerate(self.kept):
             try:
                 out = comp.call(0.0, comp.y0)
-                if out.shape != first.shape or np.max(np.abs(out - first)) > 1e-12 * (1 + np.max(np.abs(first))):
+                tol = 1e-12 if prec == "float64" else 1e-6
+                if out.shape != first.shape or np.max(np.abs(out - first)) > tol * (1 + np.max(np.abs(first))):
                     bad.append((n, first.tolist(), out.tolist()))
             except Exception as e:
                 bad.append((n, first.tolist(), short_exc(e)))
@@ -185,12 +205,12 @@ def fresh_results(spec, ops, timeout=240):
     return json.loads(p.stdout.split("@@RESULT@@", 1)[1])
 
 
-def _close(a, b):
+def _close(a, b, rtol=1e-12):
     if isinstance(a, dict) and isinstance(b, dict):
         if set(a) != set(b):
             return False, f"keys differ: {sorted(set(a) ^ set(b))[:4]}"
         for k in a:
-            ok, why = _close(a[k], b[k])
+            ok, why = _close(a[k], b[k], rtol)
             if not ok:
                 return False, f"{k}: {why}"
         return True, ""
@@ -198,17 +218,20 @@ def _close(a, b):
         if len(a) != len(b):
             return False, f"length {len(a)} vs {len(b)}"
         for i, (x, y) in enumerate(zip(a, b)):
-            ok, why = _close(x, y)
+            ok, why = _close(x, y, rtol)
             if not ok:
                 return False, f"[{i}] {why}"
         return True, ""
     if isinstance(a, (int, float)) and isinstance(b, (int, float)):
         if a == b or (a != a and b != b):
             return True, ""
-        if abs(a - b) <= 1e-12 * (1 + max(abs(a), abs(b))):
+        if abs(a - b) <= rtol * (1 + max(abs(a), abs(b))):
             return True, ""
         return False, f"{a!r} (history) vs {b!r} (fresh interpreter)"
     return (a == b), f"{a!r} vs {b!r}"
+
+
+_HISTORY_COUNTER = 0
 
 
 class Interp:
@@ -218,7 +241,13 @@ class Interp:
         self.dead = False
         self.specs = init["specs"]
         isolate.reset()            # the history starts from a clean process state; nothing is reset afterwards
-        self.runners = [ModelRunner(s) for s in self.specs]
+        # file names are shared by the models of ONE history (that is part of the property) but not by the histories that
+        # a worker process executes one after the other: compiled extension modules cannot be unloaded, and a history must
+        # stay a function of its own operations (it is confirmed by a replay in a fresh process)
+        global _HISTORY_COUNTER
+        _HISTORY_COUNTER += 1
+        prefix = f"h{_HISTORY_COUNTER}_"
+        self.runners = [ModelRunner(s, file_prefix=prefix) for s in self.specs]
         self.log = [[] for _ in self.specs]     # per model: (op, result)
         self.order = []                          # (model index, op kind)
         self.kinds = []
@@ -270,7 +299,9 @@ class Interp:
                                      f"model {m}: {op} works in a fresh interpreter but raised after the history "
                                      f"{self.kinds[:pos]}: {got.get('msg')}")
                     break
-                ok, why = _close(got["obs"], want["obs"])
+                # (single precision results are compared at single precision: whether intermediate results of a float32
+                #  model are kept in double precision may depend on earlier float64 compilations of the same backend)
+                ok, why = _close(got["obs"], want["obs"], 1e-12 if op.get("precision", "float64") == "float64" else 2e-5)
                 if not ok:
                     self.res.violate(f"differs-from-fresh-interpreter:{op['op']}:{'vec' if op.get('vectorize') else 'novec'}",
                                      f"model {m}, {op}: {why}; history before it: {self.kinds[:pos]}")
@@ -284,6 +315,8 @@ class Interp:
         if judged == 0 and not self.res.rejected:
             self.res.rejected = "no judged result"
         self.res.nontrivial = nontrivial
+        if any(k.startswith("failed_compile@") for k in self.kinds):
+            labels.add("op:failed_compile")
         self.res.labels = sorted(labels) + [f"models:{len(self.specs)}"]
         self.res.info = {"judged_results": judged}
         return self.res
@@ -345,10 +378,10 @@ def init_strategy():
 def op_strategy(it):
     return st.fixed_dictionaries({
         "op": st.sampled_from(["get_run_func", "get_run_func", "run", "run", "jac", "update_var", "update_edge", "build",
-                               "clear", "clear_frontend_caches", "yaml_roundtrip"]),
+                               "clear", "clear_frontend_caches", "yaml_roundtrip", "failed_compile"]),
         "backend": st.sampled_from(["default"] * 5 + ["torch", "jax", "fortran", "fortran"]),
         "m": st.integers(0, 2), "vectorize": st.booleans(), "in_place": st.booleans(), "clear": st.booleans(),
-        "inp": st.sampled_from([False, False, True]),
+        "inp": st.sampled_from([False, False, True]), "precision": st.sampled_from(["float64", "float64", "float64", "float32"]),
         "file": st.sampled_from(["pv_gen_a", "pv_gen_a", "pv_gen_b"]), "fname": st.sampled_from(["pv_f", "pv_g"]),
         "i": st.integers(0, 20), "val": st.sampled_from([0.37, -0.62, 1.45])})
 
@@ -360,7 +393,7 @@ class HistoryArm(Arm):
     steps = {"quick": 9, "thorough": 10}
     min_per_shard = 8
     case_timeout = 900
-    required_labels = ("op:get_run_func", "op:run", "op:jac")
+    required_labels = ("op:get_run_func", "op:run", "op:jac", "op:failed_compile")
 
     def machine(self, ctx, sink, budget_hook):
         return ops_machine(init_strategy(), op_strategy, lambda init: Interp(init), sink, budget_hook, max_ops=9)
